@@ -54,10 +54,21 @@ def t1(kinds=None, n_in=4):
             yield NL(n_in, [], [(kind, ops), ('BUF1', ('i0',)), ('XOR2', ('i1', 'g1'))], ['g2'])
 
 
-def t2(kinds=None):
-    """g0 of every kind feeding every pin of g1 of every kind; other pins on fresh inputs.
+def t2(kinds=None, shared=False, kinds1=None):
+    """g0 of every kind feeding every pin of g1 of every kind; other pins on fresh inputs (or, with
+    shared=True, on the same four inputs i0..i3, which keeps the stimulus space at 4 variables).
     Variants: plain / g0 also observed / g0 also on a second pin of g1."""
     kinds = kinds or ref.PRIMITIVES_33
+    if shared:
+        for k0 in kinds:
+            a0 = ARITY[k0]
+            for k1 in (kinds1 or kinds):
+                a1 = ARITY[k1]
+                for p in range(a1):
+                    ops0 = tuple(f'i{j}' for j in range(a0))
+                    ops1 = ['g0' if q == p else f'i{(q + 1 + p) % 4}' for q in range(a1)]
+                    yield NL(4, [], [(k0, ops0), (k1, tuple(ops1))], ['g1'])
+        return
     for k0 in kinds:
         a0 = ARITY[k0]
         for k1 in kinds:
